@@ -977,4 +977,295 @@ theorem matchBody_eq (gs : List GG) (post : List Char) (hwf : ∀ g ∈ gs, g.WF
   simp only [checksT_map]
 
 
+
+/-! ## deepening round D: order of the samples, trailing newline, textbook regular expressions -/
+
+theorem samplesFrom_sorted (dt : Int) (hdt : 0 < dt) (l : List Int) (t0 : Int) :
+    (samplesFrom t0 dt l).Pairwise (fun x y => x.1 ≤ y.1) := by
+  induction l generalizing t0 with
+  | nil => exact List.Pairwise.nil
+  | cons v vs ih =>
+    simp only [samplesFrom, List.pairwise_cons]
+    refine ⟨?_, ih (t0 + dt)⟩
+    intro y hy
+    have := (mem_samplesFrom dt hdt vs (t0 + dt) y hy).1
+    show t0 ≤ y.1
+    omega
+
+
+theorem unit_last_not_nl (i : Nat) (h : i < 7) : (unitChars i).getLast? ≠ some '\n' ∧ unitChars i ≠ [] := by
+  match i, h with
+  | 0, _ | 1, _ | 2, _ | 3, _ | 4, _ | 5, _ | 6, _ => decide
+
+theorem getLast?_append_ne_nil (a b : List Char) (hb : b ≠ []) : (a ++ b).getLast? = b.getLast? := by
+  cases b with
+  | nil => exact absurd rfl hb
+  | cons x xs =>
+    rw [List.getLast?_append]
+    cases h : (x :: xs).getLast? with
+    | none => simp at h
+    | some y => rfl
+
+theorem strsG_last_not_nl (gs : List GG) (hwf : ∀ g ∈ gs, g.WF) (hne : gs ≠ []) :
+    (strsG gs).getLast? ≠ some '\n' ∧ strsG gs ≠ [] := by
+  induction gs with
+  | nil => exact absurd rfl hne
+  | cons g gs ih =>
+    have hg := hwf g (by simp)
+    have hu := unit_last_not_nl g.unit hg.2.2.2.2.2
+    by_cases hgs : gs = []
+    · subst hgs
+      have e : strsG [g] = (g.pre ++ (g.numStr ++ g.mid)) ++ unitChars g.unit := by
+        simp [strsG, GG.str, GG.core, List.append_assoc]
+      rw [e]
+      refine ⟨by rw [getLast?_append_ne_nil _ _ hu.2]; exact hu.1, ?_⟩
+      intro h; exact hu.2 (List.append_eq_nil_iff.mp h).2
+    · have := ih (fun x hx => hwf x (by simp [hx])) hgs
+      have e : strsG (g :: gs) = g.str ++ strsG gs := by simp [strsG]
+      rw [e]
+      refine ⟨by rw [getLast?_append_ne_nil _ _ this.2]; exact this.1, ?_⟩
+      intro h; exact this.2 (List.append_eq_nil_iff.mp h).2
+
+theorem canonTail_dropLast (i : Nat) (gs : List GG) (p : List Char) (c : Char) (h : CanonTail i gs (p ++ [c])) :
+    CanonTail i gs p := by
+  induction gs generalizing i with
+  | nil =>
+    obtain ⟨h1, h2, h3⟩ := h
+    refine ⟨?_, Or.inr ?_, h3⟩
+    · rw [List.all_append] at h1; simp only [Bool.and_eq_true] at h1; exact h1.1
+    · rcases h2 with h2 | h2
+      · simp at h2
+      · exact h2
+  | cons g gs ih =>
+    obtain ⟨h1, h2, h3⟩ := h
+    exact ⟨h1, h2, ih _ h3⟩
+
+/-- If a text ending in a newline matches, the text without that newline matches too, with the same captures
+    (the newline can only have been matched by one of the `\s*`). -/
+theorem body_drop_newline (b : List Char) (toks : List Tok) (h : BodyMatch (b ++ ['\n']) toks) :
+    BodyMatch b toks := by
+  obtain ⟨gs, post, hcs, hc, htk⟩ := canon_of_body _ _ h
+  obtain ⟨hwf, hp⟩ := canonTail_wf 0 gs post hc.1
+  have hpost : post ≠ [] := by
+    intro he
+    subst he
+    rw [List.append_nil] at hcs
+    by_cases hgs : gs = []
+    · subst hgs; simp [strsG] at hcs
+    · have := (strsG_last_not_nl gs hwf hgs).1
+      rw [← hcs] at this
+      simp at this
+  obtain ⟨p, c, hpc⟩ : ∃ p c, post = p ++ [c] := by
+    rcases List.eq_nil_or_concat post with h | ⟨p, c, h⟩
+    · exact absurd h hpost
+    · exact ⟨p, c, by simpa using h⟩
+  subst hpc
+  rw [← List.append_assoc] at hcs
+  have hb : b = strsG gs ++ p := (List.append_inj' hcs rfl).1
+  subst hb; subst htk
+  exact body_of_canon gs p ⟨canonTail_dropLast 0 gs p c hc.1, hc.2⟩
+
+
+/-- Regular expressions over characters: the fragment `Timeindex`'s pattern uses. -/
+inductive Rx where
+  | cls (p : Char → Bool)
+  | eps
+  | seq (a b : Rx)
+  | star (a : Rx)
+  | opt (a : Rx)
+
+/-- The textbook matching relation. -/
+inductive Rx.Matches : Rx → List Char → Prop
+  | cls (p : Char → Bool) (c : Char) : p c = true → Matches (.cls p) [c]
+  | eps : Matches .eps []
+  | seq (a b : Rx) (x y : List Char) : Matches a x → Matches b y → Matches (.seq a b) (x ++ y)
+  | star_nil (a : Rx) : Matches (.star a) []
+  | star_cons (a : Rx) (x y : List Char) : Matches a x → Matches (.star a) y → Matches (.star a) (x ++ y)
+  | opt_none (a : Rx) : Matches (.opt a) []
+  | opt_some (a : Rx) (x : List Char) : Matches a x → Matches (.opt a) x
+
+/-- a literal string -/
+def Rx.lit : List Char → Rx
+  | [] => .eps
+  | c :: cs => .seq (.cls (· == c)) (Rx.lit cs)
+/-- `a+` -/
+def Rx.plus (a : Rx) : Rx := .seq a (.star a)
+
+/-- `\d` and `\s` restricted to ASCII -/
+def rxDigit : Rx := .cls isDigit
+def rxSpace : Rx := .cls isSpace
+/-- `\s*` -/
+def rxWs : Rx := .star rxSpace
+/-- `\d*\.?\d+` -/
+def rxNumber : Rx := .seq (.star rxDigit) (.seq (.opt (.cls (· == '.'))) (Rx.plus rxDigit))
+/-- `((?P<u>\d*\.?\d+)\s*u)?` -/
+def rxGroup (i : Nat) : Rx := .opt (.seq rxNumber (.seq rxWs (Rx.lit (unitChars i))))
+/-- `r"\s*".join(...)` -/
+def rxJoin : List Rx → Rx
+  | [] => .eps
+  | [r] => r
+  | r :: r' :: rs => .seq r (.seq rxWs (rxJoin (r' :: rs)))
+/-- the pattern between `^(?P<sign>-?)` and `$` -/
+def rxBody : Rx := rxJoin [rxGroup 0, rxGroup 1, rxGroup 2, rxGroup 3, rxGroup 4, rxGroup 5, rxGroup 6]
+/-- `(?P<sign>-?)` followed by the body -/
+def rxFull : Rx := .seq (.opt (.cls (· == '-'))) rxBody
+
+theorem seq_iff (a b : Rx) (z : List Char) :
+    (Rx.seq a b).Matches z ↔ ∃ x y, z = x ++ y ∧ a.Matches x ∧ b.Matches y := by
+  constructor
+  · intro h; cases h with | seq _ _ x y h1 h2 => exact ⟨x, y, rfl, h1, h2⟩
+  · rintro ⟨x, y, rfl, h1, h2⟩; exact .seq a b x y h1 h2
+
+theorem opt_iff (a : Rx) (z : List Char) : (Rx.opt a).Matches z ↔ z = [] ∨ a.Matches z := by
+  constructor
+  · intro h; cases h with
+    | opt_none => exact Or.inl rfl
+    | opt_some _ _ h => exact Or.inr h
+  · rintro (rfl | h)
+    · exact .opt_none a
+    · exact .opt_some a z h
+
+theorem cls_iff (p : Char → Bool) (z : List Char) : (Rx.cls p).Matches z ↔ ∃ c, z = [c] ∧ p c = true := by
+  constructor
+  · intro h; cases h with | cls _ c h => exact ⟨c, rfl, h⟩
+  · rintro ⟨c, rfl, h⟩; exact .cls p c h
+
+theorem eps_iff (z : List Char) : Rx.eps.Matches z ↔ z = [] := by
+  constructor
+  · intro h; cases h; rfl
+  · rintro rfl; exact .eps
+
+theorem star_cls_all (p : Char → Bool) (r : Rx) (z : List Char) (h : r.Matches z) (hr : r = .star (.cls p)) :
+    z.all p = true := by
+  induction h with
+  | star_nil => rfl
+  | star_cons a x y h1 _ _ ih2 =>
+    injection hr with hr; subst hr
+    obtain ⟨c, rfl, hc⟩ := (cls_iff p x).mp h1
+    simp [hc, ih2 rfl]
+  | _ => cases hr
+
+theorem star_cls_iff (p : Char → Bool) (z : List Char) : (Rx.star (.cls p)).Matches z ↔ z.all p = true := by
+  constructor
+  · intro h; exact star_cls_all p _ z h rfl
+  · intro h
+    induction z with
+    | nil => exact .star_nil _
+    | cons c cs ih =>
+      simp only [List.all_cons, Bool.and_eq_true] at h
+      exact .star_cons _ [c] cs (.cls p c h.1) (ih h.2)
+
+theorem plus_cls_iff (p : Char → Bool) (z : List Char) :
+    (Rx.plus (.cls p)).Matches z ↔ z.all p = true ∧ z ≠ [] := by
+  unfold Rx.plus
+  rw [seq_iff]
+  constructor
+  · rintro ⟨x, y, rfl, h1, h2⟩
+    obtain ⟨c, rfl, hc⟩ := (cls_iff p x).mp h1
+    exact ⟨by simp [hc, (star_cls_iff p y).mp h2], by simp⟩
+  · rintro ⟨h, hne⟩
+    cases z with
+    | nil => exact absurd rfl hne
+    | cons c cs =>
+      simp only [List.all_cons, Bool.and_eq_true] at h
+      exact ⟨[c], cs, rfl, .cls p c h.1, (star_cls_iff p cs).mpr h.2⟩
+
+theorem lit_iff (s z : List Char) : (Rx.lit s).Matches z ↔ z = s := by
+  induction s generalizing z with
+  | nil => exact eps_iff z
+  | cons c cs ih =>
+    simp only [Rx.lit]
+    rw [seq_iff]
+    constructor
+    · rintro ⟨x, y, rfl, h1, h2⟩
+      obtain ⟨c', rfl, hc⟩ := (cls_iff _ x).mp h1
+      have : c' = c := by simpa using hc
+      rw [this, (ih y).mp h2]; rfl
+    · rintro rfl
+      exact ⟨[c], cs, rfl, .cls _ c (by simp), (ih cs).mpr rfl⟩
+
+theorem number_iff (z : List Char) :
+    rxNumber.Matches z ↔ ∃ d1 dot d2, z = d1 ++ dotStr dot ++ d2 ∧ d1.all isDigit = true ∧
+      d2.all isDigit = true ∧ d2 ≠ [] := by
+  unfold rxNumber rxDigit
+  simp only [seq_iff, opt_iff, star_cls_iff, plus_cls_iff, cls_iff]
+  constructor
+  · rintro ⟨d1, y, rfl, h1, o, d2, rfl, ho, h2, hne⟩
+    rcases ho with rfl | ⟨c, rfl, hc⟩
+    · exact ⟨d1, false, d2, by simp [dotStr], h1, h2, hne⟩
+    · have : c = '.' := by simpa using hc
+      subst this
+      exact ⟨d1, true, d2, by simp [dotStr], h1, h2, hne⟩
+  · rintro ⟨d1, dot, d2, rfl, h1, h2, hne⟩
+    cases dot with
+    | false => exact ⟨d1, d2, by simp [dotStr], h1, [], d2, rfl, Or.inl rfl, h2, hne⟩
+    | true => exact ⟨d1, '.' :: d2, by simp [dotStr], h1, ['.'], d2, rfl, Or.inr ⟨'.', rfl, by simp⟩, h2, hne⟩
+
+theorem group_iff (i : Nat) (z : List Char) : (rxGroup i).Matches z ↔ z = [] ∨ ∃ tok, GroupMatch i z tok := by
+  unfold rxGroup rxWs rxSpace
+  rw [opt_iff]
+  apply or_congr Iff.rfl
+  simp only [seq_iff, number_iff, star_cls_iff, lit_iff]
+  constructor
+  · rintro ⟨x, y, rfl, ⟨d1, dot, d2, rfl, h1, h2, hne⟩, mid, u, rfl, hm, rfl⟩
+    have := GroupMatch.mk (i := i) d1 d2 mid dot h1 h2 hne hm
+    exact ⟨_, by simpa [List.append_assoc] using this⟩
+  · rintro ⟨tok, h⟩
+    cases h with
+    | mk d1 d2 mid dot h1 h2 hne hm =>
+      exact ⟨d1 ++ dotStr dot ++ d2, mid ++ unitChars i, by simp [List.append_assoc],
+        ⟨d1, dot, d2, rfl, h1, h2, hne⟩, mid, unitChars i, rfl, hm, rfl⟩
+
+
+theorem ws_iff (z : List Char) : rxWs.Matches z ↔ z.all isSpace = true := star_cls_iff isSpace z
+
+theorem tail7 (cs : List Char) (toks : List Tok) (h : TailMatch 7 cs toks) : cs = [] ∧ toks = [] := by
+  cases h with
+  | done => exact ⟨rfl, rfl⟩
+  | absent _ _ _ _ hi => omega
+  | present _ _ _ _ _ _ hi => omega
+
+theorem tail_base (cs : List Char) :
+    (Rx.seq rxWs (rxJoin [rxGroup 6])).Matches cs ↔ ∃ toks, TailMatch 6 cs toks := by
+  simp only [rxJoin, seq_iff, ws_iff, group_iff]
+  constructor
+  · rintro ⟨ws, g, rfl, hws, hg⟩
+    rcases hg with rfl | ⟨tok, hg⟩
+    · exact ⟨[], TailMatch.absent 6 ws [] [] (by omega) hws TailMatch.done⟩
+    · have := TailMatch.present 6 ws g [] tok [] (by omega) hws hg TailMatch.done
+      exact ⟨[tok], by simpa using this⟩
+  · rintro ⟨toks, h⟩
+    cases h with
+    | absent _ ws rest toks hi hws ht =>
+      obtain ⟨rfl, rfl⟩ := tail7 _ _ ht
+      exact ⟨ws, [], rfl, hws, Or.inl rfl⟩
+    | present _ ws g rest tok toks hi hws hg ht =>
+      obtain ⟨rfl, rfl⟩ := tail7 _ _ ht
+      exact ⟨ws, g, by simp, hws, Or.inr ⟨tok, hg⟩⟩
+
+theorem tail_step (i : Nat) (hi : i < 7) (r' : Rx) (rs : List Rx)
+    (ih : ∀ cs, (Rx.seq rxWs (rxJoin (r' :: rs))).Matches cs ↔ ∃ toks, TailMatch (i + 1) cs toks) (cs : List Char) :
+    (Rx.seq rxWs (rxJoin (rxGroup i :: r' :: rs))).Matches cs ↔ ∃ toks, TailMatch i cs toks := by
+  simp only [rxJoin]
+  rw [seq_iff]
+  constructor
+  · rintro ⟨ws, y, rfl, hws, hy⟩
+    obtain ⟨g, rest, rfl, hg, hrest⟩ := (seq_iff _ _ _).mp hy
+    obtain ⟨toks, ht⟩ := (ih rest).mp hrest
+    rcases (group_iff i g).mp hg with rfl | ⟨tok, hg⟩
+    · have := TailMatch.absent i ws rest toks hi ((ws_iff ws).mp hws) ht
+      exact ⟨toks, by simpa using this⟩
+    · have := TailMatch.present i ws g rest tok toks hi ((ws_iff ws).mp hws) hg ht
+      exact ⟨tok :: toks, by simpa [List.append_assoc] using this⟩
+  · rintro ⟨toks, h⟩
+    cases h with
+    | done => omega
+    | absent _ ws rest toks hi hws ht =>
+      exact ⟨ws, rest, rfl, (ws_iff ws).mpr hws, (seq_iff _ _ _).mpr
+        ⟨[], rest, rfl, (group_iff i []).mpr (Or.inl rfl), (ih rest).mpr ⟨toks, ht⟩⟩⟩
+    | present _ ws g rest tok toks hi hws hg ht =>
+      exact ⟨ws, g ++ rest, by simp [List.append_assoc], (ws_iff ws).mpr hws, (seq_iff _ _ _).mpr
+        ⟨g, rest, rfl, (group_iff i g).mpr (Or.inr ⟨tok, hg⟩), (ih rest).mpr ⟨_, ht⟩⟩⟩
+
+
 end Verif.C01
